@@ -15,7 +15,7 @@ from .. import core, space
 ID = "C01"
 LEVEL = "exploration"
 RULE = ("operator: all assignments of a 3-5 letter cell-state alphabet to all meshes with n<=4 cells (width vectors over {1/2,1,2}, uniform, refined) "
-        "x {convection+-,burgers,shallowwater,euler1d,nozzle(const section)} x every registered flux x 16 reconstructions x boundary sets "
+        "x {convection+-,burgers,shallowwater,euler1d,nozzle(const section)} x every registered flux x 9 (thorough 16) reconstructions x boundary sets "
         "(periodic, sym, dirichlet, every Euler inlet/outlet on either side); 2D: all assignments on grids {1,2,3}^2 x {centered,hlle} x 6 reconstructions "
         "x 5 boundary sets; solve: BFS depth 3 over (integrator, CFL) transitions from every assignment on n=3 periodic/sym meshes. "
         "non-trivial = non-uniform data")
@@ -31,6 +31,10 @@ MODELS = {
     "burgers": (("burgers",), "burgers"), "shallowwater": (("shallowwater", 9.81), "shallowwater"),
     "euler1d": (("euler1d", 1.4), "euler1d"), "nozzle-const": (("nozzle", "const", 1.4), "euler1d"),
 }
+# secondary parameters (other gamma, g, convection speed): enumerated in the thorough tier
+EXTRA = {"euler1d-g5/3": (("euler1d", 5.0 / 3.0), "euler1d"), "shallowwater-g1": (("shallowwater", 1.0), "shallowwater"),
+         "convection-slow": (("convection", -1e-3), "convection")}
+MODELS.update(EXTRA)
 PAR = {"ptot": 3.0, "rttot": 1.5, "p": 0.9}
 
 
@@ -52,7 +56,7 @@ def meshes(tier):
     out += [("w", w) for w in [(1.0, 1.0), (0.5, 2.0), (2.0, 0.5), (1.0, 2.0)]]
     out += [("w", w) for w in space.width_vectors(3)]
     w4 = space.width_vectors(4)
-    out += [("w", w) for w in (w4 if tier == "thorough" else w4[::5])]
+    out += [("w", w) for w in (w4 if tier == "thorough" else w4[::8])]
     if tier == "thorough":
         out += [("w", w) for w in space.width_vectors(5)[::7]]
     return out
@@ -133,6 +137,25 @@ def shard_op1d(arg):
                     res.violation(s, w, {"kind": "op1d", "model": mname, "flux": flux, "recon": rname, "mesh": mspec, "bcs": bcs,
                                          "idx": list(idx), "strength": strength})
     res.sample({"model": mname, "flux": flux, "recon": rname, "mesh": ["w", [0.5, 2.0, 1.0]], "bc": ["sym", "sym"], "data_letters": [0, 2, 1]}, cap=1)
+    return res
+
+
+def shard_sizes(arg):
+    """size ladder: n in {6,7,8,13,16,33} x {uniform, refined, periodic width pattern} x boundary sets x all translates of the base patterns"""
+    mname, flux, rname, tier = arg
+    res = core.Res()
+    spec, kind = MODELS[mname]
+    strength = "mild" if space.recon_kappa(rname) is not None else "strong"
+    for n in space.SIZES:
+        ms = [("uni", n, 1.0, -0.3), ("ref", n, 2.0, 3.0, 1, 2), ("w", tuple((0.5, 1.0, 2.0, 1.0)[i % 4] for i in range(n)))]
+        for mspec in ms:
+            for bcs in bc_sets(kind)[:6]:
+                for idx in space.pattern_assignments(n, 3):
+                    res.evals += 1
+                    res.nontrivial += 1
+                    for s, w in check_op_1d(mname, flux, rname, mspec, bcs, idx, strength, res):
+                        res.violation(s.replace("C01/op1d/", "C01/op1d/larger-mesh/"), w, {"kind": "op1d", "model": mname, "flux": flux, "recon": rname, "mesh": mspec, "bcs": bcs,
+                                                                                         "idx": list(idx), "strength": strength, "larger": True})
     return res
 
 
@@ -222,6 +245,19 @@ def shard_op2d(arg):
     return res
 
 
+def shard_op2d_big(arg):
+    """larger grids (odd/even, elongated): all translates of an impulse, a half-plane step and a repeating pattern"""
+    flux, rname, grid, bcname = arg
+    res = core.Res()
+    nx, ny = grid[0], grid[1]
+    for idx in space.pattern_assignments(nx * ny, 3):
+        res.evals += 1
+        res.nontrivial += 1
+        for s, w in check_op_2d(flux, rname, grid, bcname, idx, res):
+            res.violation(s.replace("C01/op2d/", "C01/op2d/larger-grid/"), w, {"kind": "op2d", "flux": flux, "recon": rname, "grid": list(grid), "bc": bcname, "idx": list(idx)})
+    return res
+
+
 # ---------------------------------------------------------------------------
 # solve level: BFS over step transitions
 def integrals(f, vol):
@@ -305,9 +341,47 @@ def bfs_solve(iname, mname, flux, rname, mspec, bc, idx, depth, cfls, res=None):
     return out
 
 
+def check_after_dtlocal(iname, mname, flux, rname, mspec, bc, idx, res=None):
+    """one global time step means the global step also on a solver object that has just been used with the local-time-step directive"""
+    spec, kind = MODELS[mname]
+    cls = space.integrators()[iname]
+    mesh = space.mesh_spec(mspec)
+    model, disc = space.build_1d(spec, flux, rname, mesh, bc, bc)
+    al = space.cons_alphabet(kind, "mild")
+    f0 = space.field_from_letters(model, mesh, al, idx)
+    vol = np.asarray(mesh.vol(), float)
+    solver = cls(mesh, disc)
+    out = []
+    try:
+        with np.errstate(all="ignore"), core.time_limit(10.0):
+            solver.solve(f0, 0.3, stop={"maxit": 2}, directives={"dtlocal": True})
+            g = solver.solve(f0, 0.3, stop={"maxit": 3})[-1]
+    except Exception as e:
+        return [("C01/solve-after-dtlocal/%s/exception" % iname, "raised %r" % (e,))]
+    if res is not None:
+        res.transitions += 5
+        res.evals += 1
+    if not admissible(kind, g):
+        if res is not None:
+            res.skipped += 1
+        return out
+    I0, I = integrals(f0, vol), integrals(g, vol)
+    sc = np.array([float(np.sum(vol * np.abs(d))) for d in f0.data]) + 1e-300
+    watch = list(range(model.neq)) if bc == "per" else ([0, 2] if kind == "euler1d" else [0])
+    err = (np.abs(I - I0) / sc)[watch].max()
+    tol = 4e-6 if space.is_implicit(cls) else 1024 * EPS
+    if not err <= tol:
+        out.append(("C01/solve-after-dtlocal/%s/%s" % (iname, mname), "%s %s %s %s mesh %r data %r: a plain solve (global step) on a solver object that was first used with the "
+                    "dtlocal directive changes the integrals by %.3g" % (iname, mname, flux, rname, mspec, idx, err)))
+    return out
+
+
 def shard_solve(arg):
     iname, mname, flux, rname, tier = arg
     res = core.Res()
+    for idx in ((0, 1, 2), (2, 0, 0), (1, 2, 1)):
+        for s, w in check_after_dtlocal(iname, mname, flux, rname, ("w", (0.5, 2.0, 1.0)), "per", idx, res):
+            res.violation(s, w, {"kind": "afterdtl", "integrator": iname, "model": mname, "flux": flux, "recon": rname, "idx": list(idx)})
     spec, kind = MODELS[mname]
     impl = space.is_implicit(space.integrators()[iname])
     cfls = (0.1, 0.5, 1.0, 5.0) if impl else (0.1, 0.5)
@@ -373,9 +447,11 @@ def run(ctx):
     th = ctx.thorough
     cfg = []
     for mname, (spec, kind) in MODELS.items():
+        if mname in EXTRA and not th:
+            continue
         model = space.make_model(spec)
         for flux in space.fluxes(model):
-            for rname in (space.X1_ALL if th else ["extrapol1"] + space.X1_UNLIMITED[:5] + ["extrapolk:0.7"] + space.X1_MUSCL):
+            for rname in (space.X1_ALL if th else space.X1_SHORT):
                 cfg.append((mname, flux, rname, ctx.tier))
     ctx.pmap("operator-1d", shard_op1d, cfg)
     # the same operator space with long-lived objects: one model and one reconstruction object serve all meshes, boundaries and data of a shard
@@ -397,7 +473,11 @@ def run(ctx):
                     cfg2.append((flux, rname, (4, 2, 1.0, 3.0), bcname, 2))
                     cfg2.append((flux, rname, (2, 4, 1.0, 3.0), bcname, 2))
     cfg2.sort(key=lambda c: -(c[4] ** (c[2][0] * c[2][1])))
+    ctx.pmap("operator-1d-size-ladder", shard_sizes, [c for c in cfg if c[2] in (space.X1_SHORT if not th else space.X1_ALL)])
     ctx.pmap("operator-2d", shard_op2d, cfg2)
+    big = [(flux, rname, grid, bcname) for flux in space.fluxes(space.euler.euler2d()) for rname in (space.X2_ALL if th else space.X2_ALL[:3])
+           for grid in ((5, 4, 2.0, 0.75), (7, 2, 1.0, 1.0), (2, 7, 1.0, 3.0), (4, 4, 1.0, 1.0)) for bcname in BC2D]
+    ctx.pmap("operator-2d-size-ladder", shard_op2d_big, big)
     cfg3 = []
     for iname in space.integrators():
         for mname, flux, rname in (("convection-", None, "extrapol3"), ("burgers", None, "muscl:vanleer"), ("euler1d", "hllc", "muscl:minmod"),
@@ -420,9 +500,13 @@ def replay(case):
     if k == "op1d":
         bcs = tuple(b if isinstance(b, str) else (b[0], b[1]) for b in case["bcs"])
         mspec = _tup(case["mesh"])
-        return check_op_1d(case["model"], case["flux"], case["recon"], mspec, bcs, tuple(case["idx"]), case["strength"])
+        v = check_op_1d(case["model"], case["flux"], case["recon"], mspec, bcs, tuple(case["idx"]), case["strength"])
+        return [(s_.replace("C01/op1d/", "C01/op1d/larger-mesh/") if case.get("larger") else s_, w) for s_, w in v]
     if k == "op2d":
-        return check_op_2d(case["flux"], case["recon"], tuple(case["grid"]), case["bc"], tuple(case["idx"]))
+        v = check_op_2d(case["flux"], case["recon"], tuple(case["grid"]), case["bc"], tuple(case["idx"]))
+        return [(s_.replace("C01/op2d/", "C01/op2d/larger-grid/") if case["grid"][0] * case["grid"][1] > 9 else s_, w) for s_, w in v]
+    if k == "afterdtl":
+        return check_after_dtlocal(case["integrator"], case["model"], case["flux"], case["recon"], ("w", (0.5, 2.0, 1.0)), "per", tuple(case["idx"]))
     if k == "solve":
         return bfs_solve(case["integrator"], case["model"], case["flux"], case["recon"], _tup(case["mesh"]), case["bc"], tuple(case["idx"]),
                          case["depth"], tuple(case["cfls"]))
